@@ -58,6 +58,28 @@ View == <<nodes, slots, free, rx, tx, txseq, dp, tok, nseq, g, bad>>
 Emit == IF EmitAt > 0 THEN (IF turns' = EmitAt THEN PrintT(<<"EDGE", ToJson(hist')>>) ELSE TRUE)
         ELSE IF SampleMod = 1 \/ Len(ToJson(hist')) % SampleMod = SampleKey THEN PrintT(<<"EDGE", ToJson(hist')>>) ELSE TRUE
 
+\* ------------------------------------------------------------------ the allocator of Upf.tla refines SeidAlloc.tla
+\* Every step of the ideal model changes (slots, free) by a sequence of SeidAlloc!Del steps (a session ends, a node is
+\* re-associated) followed by at most one SeidAlloc!New, or not at all; SeidAlloc's inductive invariant (proved with
+\* Apalache for histories of any length) therefore holds of the model, and Trace_Ideal ties slots/free to LocalNode.
+Alloc == INSTANCE SeidAlloc WITH N <- MaxSlots, slots <- [i \in DOMAIN slots |-> slots[i].live], free <- free, last <- 0
+AllocInv == Alloc!IndInv
+\* the released SEIDs of a step are appended to the free list in the order of release; an issue takes the last one
+AllocRefines ==
+  [][LET L0 == Len(free)  L1 == Len(free')
+         ended == {i \in DOMAIN slots : slots[i].live /\ (i \notin DOMAIN slots' \/ ~slots'[i].live \/ slots'[i].ord # slots[i].ord)}
+         begun == {i \in DOMAIN slots' : slots'[i].live /\ (i \notin DOMAIN slots \/ ~slots[i].live \/ slots[i].ord # slots'[i].ord)}
+     IN /\ Cardinality(begun) <= 1
+        /\ Len(slots') >= Len(slots)
+        /\ IF begun = {} THEN /\ L1 = L0 + Cardinality(ended) /\ SubSeq(free', 1, L0) = free
+                               /\ {free'[k] : k \in L0 + 1 .. L1} = ended
+           ELSE LET b == CHOOSE i \in begun : TRUE
+                    mid == free \o SetToSeq(ended)          \* as a set: the list after the releases of the step
+                IN /\ IF L0 + Cardinality(ended) > 0 THEN L1 = L0 + Cardinality(ended) - 1 ELSE L1 = 0 /\ b = Len(slots) + 1
+                   /\ b \notin {free'[k] : k \in 1..L1}
+                   /\ {free'[k] : k \in 1..L1} \cup (IF L0 + Cardinality(ended) > 0 THEN {b} ELSE {}) = {mid[k] : k \in DOMAIN mid}
+       ]_<<slots, free>>
+
 \* ------------------------------------------------------------------ constant menus
 O(o, k, i) == Op(o, k, i)
 Urr(o, i, meth, minfo) == [Op(o, "urr", i) EXCEPT !.meth = meth, !.minfo = minfo]
